@@ -18,11 +18,11 @@ def NameKeyUnquote : Prop :=
 theorem wire_unquote_unqS (raw : Bytes) : (Wire.unquote raw).1 = unqS raw := by
   rw [JsonV.Props.C11.glue_unquote]; rfl
 
-theorem step_respell (o : FOpts) (st : Stack) (k : Tok) : step st (respell o k) = step st k := by
+theorem step_respell (o : FOpts) (st : Stack) (k : Tok) : step st (respellTok o k) = step st k := by
   cases k <;> first | rfl | (cases st <;> rfl)
 
 theorem accepts_respell (o : FOpts) : ∀ (ts : List Tok) (st : Stack),
-    accepts st (ts.map (respell o)) = accepts st ts := by
+    accepts st (ts.map (respellTok o)) = accepts st ts := by
   intro ts
   induction ts with
   | nil => intro st; rfl
@@ -35,7 +35,7 @@ theorem accepts_respell (o : FOpts) : ∀ (ts : List Tok) (st : Stack),
 
 mutual
 def mapT (o : FOpts) : JV → JV
-  | .atom k => .atom (respell o k)
+  | .atom k => .atom (respellTok o k)
   | .arr es => .arr (mapL o es)
   | .obj ms => .obj (mapM o ms)
 def mapL (o : FOpts) : List JV → List JV
@@ -47,19 +47,19 @@ def mapM (o : FOpts) : List (Bytes × JV) → List (Bytes × JV)
 end
 
 mutual
-theorem toks_mapT (o : FOpts) : ∀ t : JV, (mapT o t).toks = t.toks.map (respell o)
+theorem toks_mapT (o : FOpts) : ∀ t : JV, (mapT o t).toks = t.toks.map (respellTok o)
   | .atom k => by simp [mapT, JV.toks]
-  | .arr es => by simp [mapT, JV.toks, toks_mapL o es, respell]
-  | .obj ms => by simp [mapT, JV.toks, toks_mapM o ms, respell]
-theorem toks_mapL (o : FOpts) : ∀ es : List JV, toksL (mapL o es) = (toksL es).map (respell o)
+  | .arr es => by simp [mapT, JV.toks, toks_mapL o es, respellTok]
+  | .obj ms => by simp [mapT, JV.toks, toks_mapM o ms, respellTok]
+theorem toks_mapL (o : FOpts) : ∀ es : List JV, toksL (mapL o es) = (toksL es).map (respellTok o)
   | [] => by simp [mapL, toksL]
   | e :: es => by simp [mapL, toksL, toks_mapT o e, toks_mapL o es]
-theorem toks_mapM (o : FOpts) : ∀ ms : List (Bytes × JV), toksM (mapM o ms) = (toksM ms).map (respell o)
+theorem toks_mapM (o : FOpts) : ∀ ms : List (Bytes × JV), toksM (mapM o ms) = (toksM ms).map (respellTok o)
   | [] => by simp [mapM, toksM]
-  | (n, v) :: ms => by simp [mapM, toksM, toks_mapT o v, toks_mapM o ms, respell]
+  | (n, v) :: ms => by simp [mapM, toksM, toks_mapT o v, toks_mapM o ms, respellTok]
 end
 
-theorem atomOK_respell (o : FOpts) (k : Tok) : atomOK (respell o k) = atomOK k := by cases k <;> rfl
+theorem atomOK_respell (o : FOpts) (k : Tok) : atomOK (respellTok o k) = atomOK k := by cases k <;> rfl
 
 mutual
 theorem atomsOK_mapT (o : FOpts) : ∀ t : JV, AtomsOK (mapT o t) = AtomsOK t
@@ -116,7 +116,7 @@ theorem strs_of_tokenizeV (o : FOpts) (b : Bytes) (ts : List Tok) (h : tokenizeV
   simp only [tokensOK, Bool.and_eq_true, List.all_eq_true] at hk
   intro raw hm
   have h1 := hk.1 _ hm
-  simp only [strOK, Bool.or_eq_true] at h1
+  simp only [strOKV, Bool.or_eq_true] at h1
   cases hu : o.allowInvalidUTF8 with
   | true => simpa using (str_valid_iff raw).mp ((tokenize_sound' b ts ht).1 _ hm)
   | false =>
@@ -124,17 +124,17 @@ theorem strs_of_tokenizeV (o : FOpts) (b : Bytes) (ts : List Tok) (h : tokenizeV
     · rw [hu] at h1; cases h1
     · simpa using (strictStr_iff raw).mp h1
 
-/-- **Respelling an accepted token list** (no escape option): well nested, accepted under the same validation
+/-- **Respelling an accepted token list** (every option set but PreserveRawStrings with an escape option): well nested, accepted under the same validation
 options, a fixed point of respelling, and every string keeps its text. -/
-theorem respell_tokens (o : FOpts) (hR : o.noEscape) (hd : o.allowDup = true ∨ NameKeyUnquote)
+theorem respell_tokens (o : FOpts) (hR : o.respellable) (hd : o.allowDup = true ∨ NameKeyUnquote)
     (b : Bytes) (ts : List Tok) (h : tokenizeV o b = some ts) :
-    WellNested (ts.map (respell o)) ∧ tokensOK o (ts.map (respell o)) = true ∧
-    (ts.map (respell o)).map (respell o) = ts.map (respell o) ∧
+    WellNested (ts.map (respellTok o)) ∧ tokensOK o (ts.map (respellTok o)) = true ∧
+    (ts.map (respellTok o)).map (respellTok o) = ts.map (respellTok o) ∧
     ∀ raw, Tok.str raw ∈ ts → unqS (respellStr o raw) = unqS raw := by
   obtain ⟨ht, hk⟩ := (tokenizeV_eq_some o b ts).mp h
   have hw := tokenize_sound' b ts ht
   have hstr := strs_of_tokenizeV o b ts h
-  have hspec := fun raw hm => respellStr_spec o hR raw (hstr raw hm)
+  have hspec := fun raw hm => respellStr_spec' o hR raw (hstr raw hm)
   refine ⟨⟨?_, by rw [accepts_respell]; exact hw.2⟩, ?_, ?_, fun raw hm => (hspec raw hm).2.2.1⟩
   · intro k hk'
     obtain ⟨k0, hk0, rfl⟩ := List.mem_map.mp hk'
@@ -147,7 +147,7 @@ theorem respell_tokens (o : FOpts) (hR : o.noEscape) (hd : o.allowDup = true ∨
       obtain ⟨k0, hk0, rfl⟩ := List.mem_map.mp hk'
       cases k0 with
       | str raw =>
-        simp only [respell, strOK, Bool.or_eq_true]
+        simp only [respellTok, strOKV, Bool.or_eq_true]
         cases hu : o.allowInvalidUTF8 with
         | true => exact Or.inl rfl
         | false =>
@@ -172,7 +172,7 @@ theorem respell_tokens (o : FOpts) (hR : o.noEscape) (hd : o.allowDup = true ∨
     apply List.map_congr_left
     intro k hk'
     cases k with
-    | str raw => simp only [Function.comp, respell]; rw [(hspec raw hk').2.2.2]
+    | str raw => simp only [Function.comp, respellTok]; rw [(hspec raw hk').2.2.2]
     | _ => rfl
 
 end JsonV.Fmt
